@@ -459,6 +459,15 @@ def vec_close(rec, got, want, tol, scale=None):
     return bool(same and r <= tol), r
 
 
+def pick(rec, got, cands, tol, scale):
+    """First candidate (alt, flags) whose prediction `got` equals; the last one if none does (so that the witness shows
+    an as-built prediction and is keyed `:unexplained`); (None, ()) without candidates."""
+    for a_, f_ in cands:
+        if vec_close(rec, got, a_, tol, scale)[0]:
+            return a_, f_
+    return cands[-1] if cands else (None, ())
+
+
 def xscale(x):
     return np.maximum(1.0, np.abs(np.asarray(x, dtype=float)))
 
@@ -594,51 +603,72 @@ def judge_run(rec, info, o, fe):
     # -- lens-at-returned-x ------------------------------------------------------------------------------
     # as-built models: scipy's result is one of the logged evaluations and the lens sits at the LAST logged one; with
     # workers=-1 nothing is evaluated in the parent and the lens keeps its start values
-    alt, flags = None, ()
     kp = poisoned_from(vs_list, o)
     # which NaN-persistence mechanism can act here: a non-finite thickness trial, else a NaN written by the solve, else
     # (no thickness trial, no solve) only NaN iterates of scipy itself
     nan_mech = MECH_NANTHK if kp is not None else MECH_NANSOLVE if info.get('has_solve') else MECH_NANX
+    nanz = set(o.get('nan_z_after', []))
+
+    def with_nan_thickness(a):
+        # NaN vertex positions persist (set_thickness / solves add to the stored positions): every thickness whose gap
+        # touches one reads NaN, whatever x was last set
+        a = np.array(a, dtype=float)
+        for i, vs in enumerate(vs_list):
+            k_ = vs['kw']['surface_number']
+            if vs['kind'] == 'thickness' and (k_ in nanz or k_ + 1 in nanz):
+                a[i] = np.nan
+        return a
+    # candidate as-built models, the smallest set of mechanisms first; a mechanism is named only when the lens equals
+    # ITS prediction and no smaller set predicts the same state (a repaired mechanism is never claimed on ambiguity)
+    cands = []
+    if nanz:
+        cands.append((with_nan_thickness(x), (nan_mech,)))
     # (after an abnormal L-BFGS-B line search scipy may hand back an x it never evaluated, with the fun of its last trial)
     if last is not None and (o['returned_x_evaluated'] or (not o['success'] and o['returned_fun_is_logged_value'])):
-        alt, flags = np.asarray(last[0], dtype=float), (MECH_LAST,)
-        nanz = set(o.get('nan_z_after', []))
+        cands.append((np.asarray(last[0], dtype=float), (MECH_LAST,)))
         if nanz:
-            # NaN vertex positions persist (set_thickness / solves add to the stored positions): every thickness whose
-            # gap touches one reads NaN, whatever x was last set
-            alt = alt.copy()
-            for i, vs in enumerate(vs_list):
-                k_ = vs['kw']['surface_number']
-                if vs['kind'] == 'thickness' and (k_ in nanz or k_ + 1 in nanz):
-                    alt[i] = np.nan
-            flags = (MECH_LAST, nan_mech)
+            cands.append((with_nan_thickness(last[0]), (MECH_LAST, nan_mech)))
     elif last is None and fe == 'de-mp':
-        alt, flags = x0, (MECH_MP,)
+        cands.append((x0, (MECH_MP,)))
     # a thickness is read back as the difference of two absolutely stored vertex positions: rounding 16 eps max|z|
     xs = np.maximum(xscale(x), np.where(np.isfinite(got), np.abs(got), 0.0))      # relative comparison
     thk = np.array([vs['kind'] == 'thickness' for vs in vs_list])
     xs = xs + np.where(thk, 16 * np.finfo(float).eps * float(o.get('zmax_seen', 0.0)) / 1e-12, 0.0)
-    rec.close('lens-at-returned-x', got, x, 1e-12, key='lens-at-returned-x:unexplained', scale=xs, alt=alt, flags=flags,
+    xnan = np.isnan(x)
+    gotm, xm = got, x
+    if xnan.any():
+        # scipy itself returned NaN entries: "the variables equal the returned vector" cannot be decided for them
+        rec.cls('scipy-returned-nan-x')
+        gotm, xm = np.where(xnan, 0.0, got), np.where(xnan, 0.0, x)
+        cands = [(np.where(xnan, 0.0, a_), f_) for a_, f_ in cands]
+    alt, flags = pick(rec, gotm, cands, 1e-12, xs)
+    lens_ok = rec.close('lens-at-returned-x', gotm, xm, 1e-12, key='lens-at-returned-x:unexplained', scale=xs, alt=alt, flags=flags,
               msg=f'{fe}: after optimize() the variables are {got.tolist()} but result.x = {x.tolist()}'
                   + (f'; last objective evaluation was at {last[0]}' if last else '; start values ' + str(x0.tolist())))
     # -- objective-reproduced ----------------------------------------------------------------------------
     if o['returned_point_faulted'] or o['last_eval_faulted']:
         rec.cls('objective-reproduced-undecidable-under-fault')     # a transient fault cannot be re-evaluated
     else:
-        alt, flags = None, ()
-        if last is not None and (o['returned_point_evaluated'] or o['returned_fun_is_logged_value']):
-            alt, flags = last[1], (MECH_LAST,)
-            vx = o.get('value_at_returned_x')
-            if not o['returned_point_evaluated'] and vx is not None and not o['success'] \
-                    and abs(o['merit_after'] - vx) < abs(o['merit_after'] - last[1]):
-                # scipy (L-BFGS-B after an abnormal line search) handed back x of one logged evaluation with the fun of
-                # another; on a lens that IS at result.x the merit equals the value logged at result.x
-                alt, flags = vx, (MECH_PAIR,)
-        elif last is None and fe == 'de-mp':
-            alt, flags = o['m0'], (MECH_MP,)
+        # the lens state was decided above; the merit on it is predicted from THAT state only
+        lens_flags = () if lens_ok else flags
+        oscale = max(abs(o['fun']), o.get('cond_after', 0.0), 4 * o.get('round_sens', 0.0) / 1e-9,
+                     o.get('pos_sens', 0.0) / 1e-9, 1e-30)
+        cands = []
+        if nanz and o['merit_after'] == W.PENALTY:
+            # a NaN vertex position is in the lens for good: every evaluation on it is the 1e10 penalty
+            cands.append((W.PENALTY, (nan_mech,)))
+        if MECH_LAST in lens_flags and last is not None and (o['returned_point_evaluated'] or o['returned_fun_is_logged_value']):
+            cands.append((last[1], (MECH_LAST,)))
+        if MECH_MP in lens_flags:
+            cands.append((o['m0'], (MECH_MP,)))
+        vx = o.get('value_at_returned_x')
+        if lens_ok and not o['returned_point_evaluated'] and vx is not None and not o['success']:
+            # scipy (L-BFGS-B after an abnormal line search) handed back x of one logged evaluation with the fun of
+            # another; on a lens that IS at result.x the merit equals the value logged at result.x
+            cands.append((vx, (MECH_PAIR,)))
+        alt, flags2 = pick(rec, o['merit_after'], cands, 1e-9, oscale)
         rec.close('objective-reproduced', o['merit_after'], o['fun'], 1e-9, key='objective-reproduced:unexplained',
-                  scale=max(abs(o['fun']), o.get('cond_after', 0.0), 4 * o.get('round_sens', 0.0) / 1e-9, 1e-30),
-                  alt=alt, flags=flags,
+                  scale=oscale, alt=alt, flags=flags2,
                   msg=f'{fe}: merit re-evaluated on the lens as left = {o["merit_after"]!r}, returned objective = {o["fun"]!r}')
     # the merit accessor itself, on the lens as left and at the start
     for a_, b_, w_ in ((o['m0'], o['m0_oracle'], 'at start'), (o['merit_after'], o['merit_after_oracle'], 'after return')):
@@ -648,7 +678,10 @@ def judge_run(rec, info, o, fe):
     head = o['log_head']
     fault0 = bool(head) and head[0][2] > 0
     m0_flat = info.get('m0_flat') if info.get('first_run', True) else None
-    if head and np.allclose(head[0][0], x0, rtol=0, atol=1e-12 * float(np.max(xscale(x0)))) and not fault0:
+    # is the first logged evaluation AT the start point?  decided per variable (1e-12 relative to that variable)
+    head_at_x0 = bool(head) and bool(np.all(np.abs(np.asarray(head[0][0], dtype=float) - x0) <= 1e-12 * xscale(x0)))
+    head_near_x0 = bool(head) and bool(np.all(np.abs(np.asarray(head[0][0], dtype=float) - x0) <= 1e-9 * xscale(x0)))
+    if head_at_x0 and not fault0:
         # the first evaluation re-sets the variables through update(): the lens may differ from the start by rounding
         rec.close('objective-is-merit', head[0][1], o['m0'], 1e-9, key='objective-is-merit:unexplained',
                   scale=max(abs(o['m0']), 4 * o.get('round_sens', 0.0) / 1e-9, 1e-30),
@@ -666,7 +699,6 @@ def judge_run(rec, info, o, fe):
     ok = o['fun'] <= m_start * (1 + 1e-12) + 1e-300 + 4 * o.get('round_sens', 0.0)
     def near(a_, b_, rel):
         return a_ is not None and b_ is not None and abs(a_ - b_) <= rel * max(abs(a_), abs(b_), 1e-300)
-    head_at_x0 = bool(head) and np.allclose(head[0][0], x0, rtol=0, atol=1e-12 * float(np.max(xscale(x0))))
     start_seen = head_at_x0 and (fault0 or near(head[0][1], o['m0'], 1e-9) or near(head[0][1], m0_flat, 1e-9)
                                  or abs(head[0][1] - o['m0']) <= 4 * o.get('round_sens', 0.0))
     mech = 'unexplained'
@@ -680,8 +712,7 @@ def judge_run(rec, info, o, fe):
         # its iteration limit or converged on the flat 1e10 penalty plateau, L-BFGS-B after an abnormal line search
         # on the penalty cliff); the library does not keep the best point it has seen
         mech = MECH_FAIL
-    elif fe in ('least-squares', 'compensator:least_squares') and bool(head) and not head_at_x0 \
-            and np.allclose(head[0][0], x0, rtol=0, atol=1e-9 * float(np.max(xscale(x0)))) \
+    elif fe in ('least-squares', 'compensator:least_squares') and bool(head) and not head_at_x0 and head_near_x0 \
             and o['fun'] <= head[0][1] * (1 + 1e-12) + 1e-300:
         # scipy's TRF moves a start that lies within 1e-10 of a bound into the interior before its first evaluation;
         # relative to that first evaluation the objective did not get worse
